@@ -320,6 +320,13 @@ func cmdCheck(args []string) {
 	os.RemoveAll(replayDir)
 	violations := 0
 	obligations, discharged := 0, 0
+	dischargedBounded := 0
+	boundedFuncs := map[string]bool{}
+	for _, r := range run.results {
+		if len(r.Bounded) > 0 {
+			boundedFuncs[r.Key] = true
+		}
+	}
 	var excluded []string
 	var samples []any
 	backends := map[string]int{}
@@ -359,7 +366,12 @@ func cmdCheck(args []string) {
 		}
 		obligations++
 		if g.OK {
-			discharged++
+			if boundedFuncs[g.Func] {
+				// decided only up to the unrolling bound of a loop in an unknown helper: not a proof
+				dischargedBounded++
+			} else {
+				discharged++
+			}
 			continue
 		}
 		violations++
@@ -392,6 +404,7 @@ func cmdCheck(args []string) {
 	notes := map[string]int{}
 	inlined := map[string]int{}
 	paths := 0
+	boundedDyn := map[string]bool{}
 	for _, r := range run.results {
 		funcs = append(funcs, map[string]any{"function": r.Key, "ssa_sha256_16": run.ssaHash[r.Key], "paths": r.Paths, "path_obligations": len(r.Obls), "symex_seconds": r.Seconds})
 		paths += r.Paths
@@ -406,6 +419,9 @@ func cmdCheck(args []string) {
 		}
 		for k, v := range r.Inlined {
 			inlined[k] += v
+		}
+		for k := range r.Bounded {
+			boundedDyn[r.Key+": "+k] = true
 		}
 	}
 	props, _ := loadProps()
@@ -454,14 +470,21 @@ func cmdCheck(args []string) {
 		inl = append(inl, fmt.Sprintf("%s (x%d)", k, inlined[k]))
 	}
 	sort.Strings(excluded)
+	boundedList := append([]string{}, pc.Bounded...)
+	for _, k := range sortedKeysB(boundedDyn) {
+		boundedList = append(boundedList, k)
+		fmt.Printf("NOTE bounded (not counted as proved): %s\n", k)
+	}
+	level := "proof"
 	ev := map[string]any{
 		"property_id": *id,
 		"tier":        *tier,
 		"seed":        seed,
-		"level":       "proof",
+		"level":       level,
 		"coverage": map[string]any{
 			"obligations":              obligations,
 			"discharged":               discharged,
+			"held_up_to_bound_only":    dischargedBounded,
 			"checker_cmd":              fmt.Sprintf("bin/gocv check -property %s -tier %s (per-path SMT-LIB queries generated from go/ssa of /repo's working tree; z3 5.1.0, cvc5 1.0.x, z3 4.8.12 raced, %ds cap)", *id, *tier, timeout),
 			"trusted_base":             trusted,
 			"samples":                  samples,
@@ -474,9 +497,9 @@ func cmdCheck(args []string) {
 			"inlined_callees":          inl,
 			"engine_notes":             noteList,
 			"excluded_known_findings":  excluded,
-			"bounded_stand_ins":        pc.Bounded,
+			"bounded_stand_ins":        boundedList,
 			"contract_files":           run.files,
-			"explanation":              "obligations = named proof obligations (one per clause and site, each checked on every path that reaches it) generated from the current source; discharged = those for which every path query is unsat. Obligations listed under excluded_known_findings fail for a recorded genuine defect and are not counted.",
+			"explanation":              "obligations = named proof obligations (one per clause and site, each checked on every path that reaches it) generated from the current source; discharged = those for which every path query is unsat (held_up_to_bound_only = those of functions for which a bounded stand-in had to be used, listed under bounded_stand_ins: not counted as discharged). Obligations listed under excluded_known_findings fail for a recorded genuine defect and are not counted.",
 		},
 		"assumptions": assumptions,
 		"wall_s":      time.Since(t0).Seconds(),
@@ -540,8 +563,12 @@ func cmdCheck(args []string) {
 		fmt.Fprintln(os.Stderr, "ENGINE-ERROR:", err)
 		os.Exit(2)
 	}
-	fmt.Printf("%s %s: %d obligations, %d discharged, %d known findings, %d violations, %d functions, %d paths, %.1fs\n",
-		*id, *tier, obligations, discharged, len(excluded), violations, len(run.results), paths, time.Since(t0).Seconds())
+	extra := ""
+	if dischargedBounded > 0 {
+		extra = fmt.Sprintf(" (+%d held up to a bound only)", dischargedBounded)
+	}
+	fmt.Printf("%s %s: %d obligations, %d discharged%s, %d known findings, %d violations, %d functions, %d paths, %.1fs\n",
+		*id, *tier, obligations, discharged, extra, len(excluded), violations, len(run.results), paths, time.Since(t0).Seconds())
 	if violations > 0 {
 		os.Exit(1)
 	}
